@@ -1,0 +1,83 @@
+//go:build verif
+
+// Contracts for the fvc verification-condition generator in /verif (comment-only file).
+//
+// Configuration and wiring of the limiter (property C13): the package defaults, configDefault, New and the two
+// LimiterMiddleware constructors establish what the handler closures (zz_contracts_verif.go) require.
+
+package limiter
+
+//@ props C13
+
+//@ fn reqIP(c ref, ep int) string
+//@ func @fiber.Ctx.IP(recv) assumed pure
+//@   ensures result == reqIP(recv, epoch)
+
+// ---- the package defaults --------------------------------------------------------------------------------
+// Max 5, Expiration 1 minute, KeyGenerator and LimitReached set, fixed window, no Next, no skipping.
+// (ConfigDefault is an exported variable: configDefault/New require that nobody has spoiled it.)
+//@ macro defaultsIntact() = allocated(ConfigDefault) && ConfigDefault.Max == 5 && ConfigDefault.Expiration == 60000000000 && ConfigDefault.KeyGenerator != nil && ConfigDefault.LimitReached != nil && ConfigDefault.LimiterMiddleware != nil && typeis(ConfigDefault.LimiterMiddleware, FixedWindow) && !ConfigDefault.SkipFailedRequests && !ConfigDefault.SkipSuccessfulRequests && ConfigDefault.Storage == nil && ConfigDefault.Next == nil
+
+// (The package initialiser `init` stores exactly these values - 5, 60000000000, init$1, init$2, FixedWindow{} - but
+// it cannot be put under contract: its body is guarded by the synthetic flag init$guard, which a clause cannot name.)
+
+// default KeyGenerator: the client's IP address
+//@ func init$1
+//@   pure
+//@   ensures key-is-client-ip: result == reqIP(c, epoch)
+
+// default LimitReached: 429 Too Many Requests
+//@ func init$2
+//@   modifies sentStatus
+//@   ensures answers-429: sentStatus == 429
+
+// default MaxFunc (made by configDefault): the configured Max, for every request
+//@ func configDefault$1
+//@   pure
+//@   ensures max-is-configured-max: result == cfg.Max
+
+// a configuration the constructors accept: every hook the handler calls is set, Max is positive, the window is at
+// least one second
+//@ macro cfgReady(cf) = cf.MaxFunc != nil && cf.KeyGenerator != nil && cf.LimitReached != nil && cf.LimiterMiddleware != nil && cf.Max > 0 && cf.Expiration >= 1000000000
+
+//@ func configDefault
+//@   requires package-default-intact: defaultsIntact()
+//@   pure
+//@   ensures max-func-set: result.MaxFunc != nil
+//@   ensures hooks-set: result.KeyGenerator != nil && result.LimitReached != nil && result.LimiterMiddleware != nil
+//@   ensures max-positive-window-at-least-a-second: result.Max > 0 && result.Expiration >= 1000000000
+//@   ensures given-values-kept: len(config) > 0 ==> (old(config[0].Max) > 0 ==> result.Max == old(config[0].Max)) && (old(config[0].Expiration) >= 1000000000 ==> result.Expiration == old(config[0].Expiration)) && (old(config[0].MaxFunc) != nil ==> result.MaxFunc == old(config[0].MaxFunc)) && (old(config[0].KeyGenerator) != nil ==> result.KeyGenerator == old(config[0].KeyGenerator)) && (old(config[0].LimitReached) != nil ==> result.LimitReached == old(config[0].LimitReached)) && (old(config[0].LimiterMiddleware) != nil ==> result.LimiterMiddleware == old(config[0].LimiterMiddleware)) && (old(config[0].Next) != nil ==> result.Next == old(config[0].Next)) && result.Storage == old(config[0].Storage) && result.SkipFailedRequests == old(config[0].SkipFailedRequests) && result.SkipSuccessfulRequests == old(config[0].SkipSuccessfulRequests)
+//@   ensures defaults-fill-the-gaps: (len(config) == 0 || old(config[0].Max) <= 0 ==> result.Max == 5) && (len(config) == 0 || old(config[0].Expiration) < 1000000000 ==> result.Expiration == 60000000000) && (len(config) == 0 || old(config[0].KeyGenerator) == nil ==> result.KeyGenerator == old(ConfigDefault.KeyGenerator)) && (len(config) == 0 || old(config[0].LimitReached) == nil ==> result.LimitReached == old(ConfigDefault.LimitReached)) && (len(config) == 0 || old(config[0].LimiterMiddleware) == nil ==> typeis(result.LimiterMiddleware, FixedWindow)) && (len(config) == 0 ==> result.Storage == nil && result.Next == nil && !result.SkipFailedRequests && !result.SkipSuccessfulRequests)
+
+// ---- constructors -------------------------------------------------------------------------------------------
+// What a LimiterMiddleware constructor needs: a ready configuration whose window is below 2^32 seconds (the clock
+// is a uint32 of seconds; internal/memory truncates a TTL to uint32 seconds), a sane store model and - for an
+// external store - a store that holds only well-formed limiter entries (storeIsOurs, entriesWF).
+//@ macro entriesWF(st) = st != nil ==> forallS(k, stHas[st][k] ==> decCurr(stVal[st][k]) >= 0 && decPrev(stVal[st][k]) >= 0 && 0 < decExp(stVal[st][k]) && decExp(stVal[st][k]) < 8589934592)
+//@ macro ctorPre(cf) = cfgReady(cf) && cf.Expiration < 4294967296000000000 && modelSane() && storeIsOurs(cf.Storage) && entriesWF(cf.Storage)
+
+// New: the configuration handed to the LimiterMiddleware is the completed one.
+//@ func Handler.New(recv, config) assumed
+//@   requires constructor-precondition: ctorPre(config)
+// (the contract block of New is in zz_contracts_lemma_verif.go: its preconditions, and the counting lemmas hosted there)
+
+// The constructors establish the preconditions of their handler closures (same labels as the `requires` of
+// (FixedWindow).New$1 / (SlidingWindow).New$1; mux, expiration, manager are the captured locals) and the lock
+// invariants for the initial store.
+//@ func (FixedWindow).New
+//@   requires constructor-precondition: ctorPre(cfg)
+//@   ensures lock-free-on-entry: !held(mux)
+//@   ensures wired: manager != nil && manager.storage == cfg.Storage
+//@   ensures hooks-set: cfg.MaxFunc != nil && cfg.KeyGenerator != nil && cfg.LimitReached != nil
+//@   ensures window-positive: expiration > 0 && expiration < 4294967296
+//@   ensures store-ok: storeOK(manager)
+//@   ensures entry-wf: fixedWF(manager)
+
+//@ func (SlidingWindow).New
+//@   requires constructor-precondition: ctorPre(cfg)
+//@   ensures lock-free-on-entry: !held(mux)
+//@   ensures wired: manager != nil && manager.storage == cfg.Storage
+//@   ensures hooks-set: cfg.MaxFunc != nil && cfg.KeyGenerator != nil && cfg.LimitReached != nil
+//@   ensures window-positive: expiration > 0 && expiration < 4294967296
+//@   ensures store-ok: storeOK(manager)
+//@   ensures entry-wf: slidingWF(manager)
